@@ -6,6 +6,9 @@ terms are the witnesses of the `_refuted` theorems (coq/Py/Witness.v, written by
 this file), and the implementation is run on them on every check so that a repaired implementation shows
 up as a model/implementation disagreement.
 """
+import warnings
+
+warnings.filterwarnings("ignore", category=SyntaxWarning)
 import genprog
 
 
